@@ -62,21 +62,26 @@ Proof.
   apply Nat.eqb_eq in E. contradiction.
 Qed.
 
-(* the generic invariant rule for [ofold] *)
-Lemma ofold_inv : forall (S A : Type) (f : S -> A -> outcome S) (I : list A -> S -> Prop) (l : list A),
-  (forall done x s s', In x l -> I done s -> f s x = Done s' -> I (done ++ [x]) s') ->
-  forall done s s', (forall x, In x l -> True) -> I done s -> ofold f l s = Done s' ->
-    I (done ++ l) s'.
+(* the generic invariant rule for [ofold]: [l0] is the whole list, [done] what has been processed *)
+Lemma ofold_inv : forall (S A : Type) (f : S -> A -> outcome S) (I : list A -> S -> Prop) (l0 : list A),
+  (forall done x rest s s', l0 = done ++ x :: rest -> I done s -> f s x = Done s' -> I (done ++ [x]) s') ->
+  forall l done s s', l0 = done ++ l -> I done s -> ofold f l s = Done s' -> I l0 s'.
 Proof.
-  intros S A f I l. induction l as [|x r IH]; intros Hstep done s s' _ HI Hf.
+  intros S A f I l0 Hstep. induction l as [|x r IH]; intros done s s' Hl HI Hf.
   - cbn [ofold] in Hf. inversion Hf; subst. rewrite app_nil_r. exact HI.
   - cbn [ofold] in Hf. destruct (f s x) as [s1| |] eqn:E; try discriminate.
-    replace (done ++ x :: r) with ((done ++ [x]) ++ r) by (rewrite <- app_assoc; reflexivity).
-    apply IH with (s := s1).
-    + intros d y t t' Hy. apply Hstep. right. exact Hy.
-    + intros; exact Logic.I.
-    + apply (Hstep done x s s1); [left; reflexivity | exact HI | exact E].
+    apply (IH (done ++ [x]) s1 s').
+    + rewrite <- app_assoc. exact Hl.
+    + apply (Hstep done x r s s1); [exact Hl | exact HI | exact E].
     + exact Hf.
+Qed.
+
+Lemma ofold_total : forall (S A : Type) (f : S -> A -> outcome S) (l : list A),
+  (forall s x, exists s', f s x = Done s') -> forall s, exists s', ofold f l s = Done s'.
+Proof.
+  intros S A f l Hf. induction l as [|x r IH]; intros s.
+  - exists s. reflexivity.
+  - cbn [ofold]. destruct (Hf s x) as [s1 E]. rewrite E. apply IH.
 Qed.
 
 (* ------------------------------------------------------------------ *)
